@@ -25,11 +25,24 @@ pub enum FaultKind {
 /// how the injected io::Error is constructed (`Fault::arg` of a hard fault):
 /// 0 = kind + message payload, 1 = bare kind (no payload), 2 = raw OS error, 3 = an io::Error
 /// that wraps one of the library's own PreflateError values
-pub const FLAVOURS: [&str; 4] = ["message", "bare_kind", "raw_os_error", "wrapped_preflate_error"];
+pub const FLAVOURS: [&str; 5] = ["message", "bare_kind", "raw_os_error", "wrapped_preflate_error", "long_non_ascii_message"];
+pub const NFLAVOURS: u32 = 5;
 
 pub fn make_error(kind_idx: u8, flavour: u32, side: &str) -> io::Error {
     let (kind, name) = HARD_KINDS[kind_idx as usize % HARD_KINDS.len()];
-    match flavour % 4 {
+    match (flavour & 0xff) % NFLAVOURS {
+        4 => {
+            // a long message with multi-byte characters at every other byte position (a localised
+            // OS error text, a non-ASCII path): any byte-offset truncation lands inside a character
+            let mut m = format!("simulierter {}-Fehler {}: ", side, name);
+            while m.len() < 300 {
+                m.push_str("Gerät »ß« nicht bereit – ");
+                if m.len() % 2 == 0 {
+                    m.push('x');
+                }
+            }
+            io::Error::new(kind, m)
+        }
         0 => io::Error::new(kind, format!("simulated {} error {}", side, name)),
         1 => io::Error::from(kind),
         2 => io::Error::from_raw_os_error(match kind {
@@ -125,7 +138,7 @@ impl IoPlan {
                                 .set("side", J::str(if f.side == Side::Src { "src" } else { "dst" }))
                                 .set("kind", J::str(k))
                                 .set("error", J::str(kn))
-                                .set("flavour", J::str(if matches!(f.kind, FaultKind::Hard(_)) { FLAVOURS[f.arg as usize % 4] } else { "" }))
+                                .set("flavour", J::str(if matches!(f.kind, FaultKind::Hard(_)) { FLAVOURS[((f.arg & 0xff) % NFLAVOURS) as usize] } else { "" }))
                                 .set("sticky", J::Bool(!matches!(f.kind, FaultKind::Interrupted) && f.arg & STICKY != 0))
                                 .set("at", J::u(f.at))
                                 .set("arg", J::u(f.arg as u64))
